@@ -117,6 +117,16 @@ def alphabet(tier):
     add(app(('abs', 'x', A, app(f, ('b', 0))), y))
     add(app(('abs', 'x', A, ('abs', 'y', A, eq(('b', 1), ('b', 0), A))), y))
     add(app(('abs', 'x', BOOL, imp(('b', 0), p)), xb))
+    # adversarial: free variables named like the logical constants (must not be read as the connectives)
+    vimp = v('implies', funs(BOOL, BOOL, BOOL))
+    veq = v('equals', funs(A, A, BOOL))
+    vall = v('all', fun(fun(A, BOOL), BOOL))
+    add(app(vimp, p, q))
+    add(app(vimp, p, p))
+    add(app(veq, x, y))
+    add(app(veq, y, x))
+    add(app(vall, ('abs', 'x', A, app(f, ('b', 0)))))
+    add(app(sv('implies', funs(BOOL, BOOL, BOOL)), p, q))
     # adversarial: open, ill-typed
     add(('b', 0))
     add(app(f, p))
